@@ -279,12 +279,12 @@ def run_check(ctx):
         # spec -> implementation: every script of builder calls (spec/Builder.tla) up to a length,
         # from Default::default() and from every command line over the option values, replayed on
         # the real BuildOptimiser; each build() compared with the configuration as last set
-        jobs = [("default", 5 if tier == "thorough" else 4, 2), ("cli", 3 if tier == "thorough" else 2, 1)]
+        jobs = [("default", 4, 2), ("cli", 2, 1)] + ([("default", 5, 1), ("cli", 3, 1)] if tier == "thorough" else [])
         builder = {"scripts_replayed": 0, "builds": 0, "origins": []}
         for origin, maxops, nb in jobs:
             bcfg = ('SPECIFICATION Spec\nCONSTANTS\n  Origin = "%s"\n  MaxOps = %d\n  NBuilders = %d\n  Variant = "spec"\n'
                     'INVARIANTS TypeOK Frame C20Shape C18Shape PassThrough Emit\nCHECK_DEADLOCK FALSE\n' % (origin, maxops, nb))
-            br = vp.run_tlc("MC_Builder", bcfg, "%s_builder_%s" % (pid, origin), workers=8, timeout=3000, xmx="8g", deque=False)
+            br = vp.run_tlc("MC_Builder", bcfg, "%s_builder_%s_%d_%d" % (pid, origin, maxops, nb), workers=8, timeout=3000, xmx="8g", deque=False)
             if br.get("error") or br["violations"]:
                 tool_errors.append("Builder model: %s %s" % (br.get("error"), br["violations"]))
                 continue
